@@ -235,16 +235,15 @@ static uint64_t xml_digest(hwloc_topology_t t, int *lenp) {
   return h;
 }
 /* ,"<key>":{"full":F,"pd":..,"xd":[len,..],"sd":..[,"topo":{..},"stores":{..}]}
- * pd / sd are digests of exactly the text that "topo" (without its xd member) / "stores" hold when full */
+ * pd / sd are digests of the text of the projection (with check_ok = 1, without xd) / of "stores" */
 static void out_obs(const char *key, hwloc_topology_t t, int full) {
   size_t s0; uint64_t pd, sd, xd; int xlen;
   hwv_flush();                 /* nothing committed is pending: offsets into the buffer stay valid below */
   out(",\"%s\":{\"full\":%d", key, full);
   xd = xml_digest(t, &xlen);
-  if (full) out(",\"topo\":");
-  s0 = hwv_len; project_topology(t, 1); pd = fnv(hwv_buf + s0, hwv_len - s0, FNV0);
-  if (!full) hwv_len = s0;
-  else { hwv_len--; out(",\"xd\":"); out_xd(xlen, xd); out("}"); }
+  /* pd digests the projection made without running hwloc_topology_check() (a forked child per call: only done for full observations) */
+  s0 = hwv_len; project_topology(t, 0); pd = fnv(hwv_buf + s0, hwv_len - s0, FNV0); hwv_len = s0;
+  if (full) { out(",\"topo\":"); project_topology(t, 1); hwv_len--; out(",\"xd\":"); out_xd(xlen, xd); out("}"); }
   if (full) out(",\"stores\":");
   s0 = hwv_len; out_stores(t); sd = fnv(hwv_buf + s0, hwv_len - s0, FNV0);
   if (!full) hwv_len = s0;
@@ -462,8 +461,9 @@ static void do_patch(char *p) {
   int k = (int)hwv_tokl(&p); char *field = hwv_tok(&p); uint64_t pos; unsigned char b; int ok = 0;
   if (k < 0 || k >= nimg || !field) return;
   pos = img[k].off;
-  if (!strcmp(field, "version")) pos += 0; else if (!strcmp(field, "hdrlen")) pos += 4; else if (!strcmp(field, "addr")) pos += 8 + 2;
-  else if (!strcmp(field, "len")) pos += 16 + 1; else if (!strcmp(field, "abi")) pos += 24 + 1; else return;
+  /* (addr, len: a high byte, so that no request of a behaviour can coincide with the damaged value) */
+  if (!strcmp(field, "version")) pos += 0; else if (!strcmp(field, "hdrlen")) pos += 4; else if (!strcmp(field, "addr")) pos += 8 + 5;
+  else if (!strcmp(field, "len")) pos += 16 + 5; else if (!strcmp(field, "abi")) pos += 24 + 1; else return;
   if (pread(fd, &b, 1, (off_t)pos) == 1) { b ^= 0x10; ok = pwrite(fd, &b, 1, (off_t)pos) == 1; }
   out("{\"e\":\"patch\",\"img\":%d,\"off\":", k); out_int(img[k].off); out(",\"field\":\"%s\",\"ok\":%d}", field, ok); out_end();
 }
